@@ -46,4 +46,15 @@ MUTANTS = [
     if len(uuid_short_str) != _SHORT_GUID_LEN:
         raise ValueError(f"'{uuid_short_str}' is not a valid uuid short string")
 """)]},
+    # other routes from the decoded number to the UUID (R20d)
+    {"id": "c20-n-explicit-range-then-bytes", "expect": "silent", "edits": [(F, "        uuid_obj = uuid.UUID(int=uuid_number)\n", """        if uuid_number >= 2 ** 128:
+            raise ValueError("too big")
+        uuid_obj = uuid.UUID(bytes=uuid_number.to_bytes(16, 'big'))
+""")]},
+    {"id": "c20-n-ctor-helper", "expect": "silent", "edits": [(F, "        uuid_obj = uuid.UUID(int=uuid_number)\n", "        uuid_obj = _mk_uuid(uuid_number)\n"),
+        (F, "def uuid_to_short_str(uuid_obj):", "def _mk_uuid(number):\n    return uuid.UUID(int=number)\n\n\ndef uuid_to_short_str(uuid_obj):")]},
+    {"id": "c20-masked-helper", "expect": "fire", "edits": [(F, "        uuid_obj = uuid.UUID(int=uuid_number)\n", "        uuid_obj = _mk_uuid(uuid_number)\n"),
+        (F, "def uuid_to_short_str(uuid_obj):", "def _mk_uuid(number):\n    return uuid.UUID(int=number & ((1 << 128) - 1))\n\n\ndef uuid_to_short_str(uuid_obj):")]},
+    {"id": "c20-to-bytes-overflow-uncaught", "expect": "fire", "edits": [(F, "        uuid_obj = uuid.UUID(int=uuid_number)\n", "        uuid_obj = uuid.UUID(bytes=uuid_number.to_bytes(16, 'big'))\n")]},
+    {"id": "c20-n-to-bytes-overflow-caught", "expect": "silent", "edits": [(F, "        uuid_obj = uuid.UUID(int=uuid_number)\n    except (ValueError, KeyError) as err:", "        uuid_obj = uuid.UUID(bytes=uuid_number.to_bytes(16, 'big'))\n    except (ValueError, KeyError, OverflowError) as err:")]},
 ]
